@@ -22,11 +22,17 @@ from hv.pyvc import to_z3
 UT = "hta.utils.utils"
 
 
+STALE = False  # set by merge_vcs(stale=True): the argument already carries `end` / `group` columns with ARBITRARY values
+
+
 def _run_window(mode: str, tag: str):
     f = extract.get_function(UT, "merge_kernel_intervals")
     node = extract.stripped(f)
     w = scanvc.Window(mode, tag)
-    frame, syms = scanvc.window_frame(w, {"ts": "int", "dur": "int"}, "ts", tag)
+    cols = {"ts": "int", "dur": "int"}
+    if STALE:
+        cols.update({"end": "int", "group": "int"})
+    frame, syms = scanvc.window_frame(w, cols, "ts", tag)
     ex = pyvc.Exec(consts=extract.module_constants(UT), name=f"merge.{mode}")
     outs = ex.run_function(node, {"kernel_df": frame}, [])
     rets = [o for o in outs if o.kind == "ret"]
@@ -38,8 +44,19 @@ def _run_window(mode: str, tag: str):
     return f, w, frame, syms, table, ex
 
 
-def merge_vcs(prop: str) -> List[core.VC]:
-    name = f"{prop}.merge_kernel_intervals"
+def merge_vcs(prop: str, stale: bool = False) -> List[core.VC]:
+    """stale=True: the same obligations for an argument that already has `end` and `group` columns holding arbitrary values
+    (the function annotates its argument in place, so a caller that merges a frame twice, or a sub-frame of an annotated
+    frame, hands such columns back): the result must not depend on them."""
+    global STALE
+    STALE = stale
+    try:
+        return _merge_vcs(prop, f"{prop}.merge_kernel_intervals" + (".stale_helper_columns" if stale else ""))
+    finally:
+        STALE = False
+
+
+def _merge_vcs(prop: str, name: str) -> List[core.VC]:
     f, wb, fb, sb, tb, exb = _run_window("base", "mb")
     f, ws, fs, ss, ts_, exs = _run_window("step", "ms")
     fq = [f.fq]
